@@ -407,6 +407,22 @@ fn handle(line: &str) -> String {
                     if h.get_entry_data_as_u32(rpm::IndexTag::RPMTAG_VERIFYSCRIPTFLAGS).ok() != Some(5) { bad.push("flags".into()); }
                     if h.get_entry_data_as_string_array(rpm::IndexTag::RPMTAG_VERIFYSCRIPTPROG).ok().map(|v| v.to_vec()) != Some(vec!["p".to_string()]) { bad.push("prog".into()); }
                 }
+                "files_misc" => {
+                    b = b.with_file(&src, rpm::FileOptions::new("/d/l").symlink("lk").mode(rpm::FileMode::symbolic_link(0o777))).unwrap();
+                    b = b.with_file(&src, rpm::FileOptions::new("/d/c").caps("cap_chown=ep").unwrap()).unwrap();
+                    b = b.with_file(&src, rpm::FileOptions::new("./e/r")).unwrap();
+                    b = b.with_file(&src, rpm::FileOptions::new("/t")).unwrap();
+                    let pkg = match b.build() { Ok(p) => p, Err(e) => return format!("build-err {:?}", e).replace(' ', "_") };
+                    match pkg.metadata.get_file_entries() {
+                        Ok(v) => {
+                            let find = |p: &str| v.iter().find(|f| f.path == std::path::PathBuf::from(p));
+                            for p_ in ["/d/l", "/d/c", "/e/r", "/t"] { if find(p_).is_none() { bad.push(format!("missing{}", p_)); } }
+                            if let Some(f) = find("/d/l") { if f.linkto != "lk" || !matches!(f.mode, rpm::FileMode::SymbolicLink { .. }) { bad.push("link".into()); } }
+                            if let Some(f) = find("/d/c") { if f.caps.as_deref() != Some("cap_chown=ep") { bad.push(format!("caps={:?}", f.caps).replace(' ', "")); } }
+                        }
+                        Err(_) => bad.push("err".into()),
+                    }
+                }
                 "changelog" => {
                     b = b.add_changelog_entry("a1", "t1", 3u32).add_changelog_entry("a2", "t2", 2u32).add_changelog_entry("a3", "t3", 5u32);
                     let pkg = match b.build() { Ok(p) => p, Err(e) => return format!("build-err {:?}", e).replace(' ', "_") };
